@@ -25,6 +25,8 @@ pub mod cmd_dma;
 pub mod cmd_irq;
 pub mod cmd_machine;
 pub mod cmd_bus;
+pub mod cmd_alu;
+pub mod cmd_decode;
 
 fn main() {
   let args: Vec<String> = std::env::args().collect();
@@ -43,6 +45,8 @@ fn main() {
     "bus-crash" => cmd_bus::crash(&args[2..]),
     "bus-sweep" => cmd_bus::sweep(&args[2..]),
     "bus-trace" => cmd_bus::trace(&args[2..]),
+    "alu-sweep" => cmd_alu::run(&args[2..]),
+    "decode" => cmd_decode::run(&args[2..]),
     "version" => println!("gbv jit={}", cfg!(feature = "jit")),
     _ => { eprintln!("usage: gbv <command> ..."); std::process::exit(2); }
   }
